@@ -139,6 +139,7 @@ type attempt struct {
 	events    [][]byte
 	verdicts  []bool // per handler call; beyond the list: accept
 	cancelAt  int    // >=0: cancel the context once that many events have been handed over (channel stays open)
+	cancelInRefusal bool // the refusing handler call also cancels the context (handler gives up on shutdown)
 	mapper    *hMapper
 }
 
@@ -190,6 +191,9 @@ func implAttempt(a attempt) (res attemptResult) {
 		ncall++
 		res.calls = append(res.calls, vh.L(txVal(t), vh.B(ok)))
 		if !ok {
+			if a.cancelInRefusal {
+				cancel()
+			}
 			return errors.New("handler refuses")
 		}
 		return nil
